@@ -69,6 +69,15 @@ def check(ctx):
                 p = parent(p)
             ctx.check(ok, "D-int", c, "%s: %s" % (q.split(":")[1], src(c)), "int() of received text outside a ValueError handler raises ValueError on malformed input")
     _http.fixed_arity_unpacks(ctx, "D-unpack", {q: f for q, f in scope.items() if "/aio/http/" in q})
+    ctx.rule("D-decode", "received bytes are decoded with a total codec or inside a handler for the decode error")
+    nd = _http.decode_discipline(ctx, "D-decode", scope)
+    ctx.floor("D-decode:sites", nd, 6)
+    ctx.rule("T-gen", "a closed line/leader/chunk generator is never resumed")
+    ctx.rule("D-bakey", "bytearray slices of the receive buffer are not used as mapping keys")
+    ctx.rule("D-valueerr", "urlsplit / .port of received text only inside a ValueError handler")
+    ctx.floor("T-gen:sites", _http.generator_typestate(ctx, "T-gen", scope), 8)
+    ctx.floor("D-bakey:keys", _http.bytearray_keys(ctx, "D-bakey", scope), 2)
+    ctx.floor("D-valueerr:sites", _http.value_errors(ctx, "D-valueerr", scope), 2)
     pm = ctx.cls("aio.http.httping", "Parsent").own_method("parseMessage")
     hs = [h for h in ast.walk(pm) if isinstance(h, ast.ExceptHandler)]
     ok = len(hs) == 1 and dotted(hs[0].type) == "HTTPException" and "self.errored = True" in src(hs[0]) and "self.error = str(ex)" in src(hs[0])
@@ -98,3 +107,57 @@ def check(ctx):
     for fd in found:
         ctx.bad(fd.rule, fd.node, fd.construct, fd.why)
     ctx.ok("D-scope", "ioflo/aio/http", "%d parse-scope functions without internal-error constructs" % len(scope))
+
+    # the second server of the module (Porter with its Stewards) services requests the same way
+    from ..callgraph import closure
+    PO = ctx.cls("aio.http.serving", "Porter")
+    ST = ctx.cls("aio.http.serving", "Steward")
+    entries = [PO.own_method(m) for m in ("serviceAll", "serviceStewards", "serviceConnects", "closeConnection") if PO.own_method(m) is not None]
+    entries += [m for m in ST.methods.values()]
+    pscope = {q: f for q, f in closure(repo, entries, max_depth=2).items() if "/aio/http/serving.py" in q}
+    for f in pscope.values():
+        ctx.functions.add(repo.func_qual(f))
+    ctx.floor("porter scope", len(pscope), 8)
+    _http.decode_discipline(ctx, "D-decode", pscope)
+    found = defects.run(repo, list(pscope.values()), ("D1", "D3", "D4", "D5", "D6"))
+    for fd in found:
+        ctx.bad(fd.rule, fd.node, fd.construct, fd.why)
+    ss = PO.own_method("serviceStewards")
+    V = FuncView(ctx, ss)
+    rs = V.need(V.call_nodes("steward.respond"), "steward.respond() in Porter.serviceStewards")
+    et = V.tests(lambda t: src(t) == "steward.requestant.errored")
+    cc = [n for n, c in V.calls("self.closeConnection") if src(c.args[0]) == "ca"]
+    ok = bool(et) and V.dominated_by_edge(rs, et[0], "F") and any(V.dominated_by_edge([c], et[0], "T") for c in cc)
+    if ok:
+        cont = [n for n in V.cfg.nodes if n.kind == "continue"]
+        ok = any(V.dominated_by_edge([k], et[0], "T") for k in cont)
+    ctx.check(ok, "T1-contain", ss, "Porter.serviceStewards: respond() only for a request that did not fail; failed => closeConnection(ca); continue",
+              "a failed request has no method/url/version: responding to it raises out of serviceAll and the other connections are not served")
+
+    # client side: what serviceResponse does with a parsed (possibly malformed) response, including following a redirect
+    ctx.rule("D7-nullable", "a header looked up with .get() is dereferenced only under a presence check")
+    PA = ctx.cls("aio.http.clienting", "Patron")
+    RS = ctx.cls("aio.http.clienting", "Respondent")
+    cscope = {repo.func_qual(f): f for f in (PA.own_method("serviceResponse"), PA.own_method("redirect"))}
+    _http.value_errors(ctx, "D-valueerr", cscope)
+    from .. import nullable
+    hfuncs = [f for q, f in scope.items() if "/aio/http/" in q] + [PA.own_method("serviceResponse")]
+    ctx.floor("D7-nullable:lookups", nullable.check(ctx, "D7-nullable", hfuncs), 6)
+    # Patron.redirect reads the Location header without a check of its own: it is only reached under respondent.redirectant,
+    # which parseHead may set only when a Location header is present
+    ph = RS.own_method("parseHead")
+    W = FuncView(ctx, ph)
+    st = [n for n in W.cfg.nodes if isinstance(n.ast, ast.Assign) and src(n.ast.targets[0]) == "self.redirectant" and
+          isinstance(n.ast.value, ast.Constant) and n.ast.value.value is True]
+    lt = [t for t in W.cfg.nodes if t.kind == "test" and any(isinstance(x, ast.Call) and src(x).replace("'", '"') == 'self.headers.get("location")'
+                                                              for x in ast.walk(t.ast.test))]
+    ok = bool(st) and bool(lt) and all(any(W.dominated_by_edge([n], t, "T") for t in lt) for n in st)
+    ctx.check(ok, "D7-nullable", ph, "Respondent.parseHead: redirectant = True only when headers.get('location') is truthy",
+              "Patron.redirect dereferences the Location header unconditionally: a 3xx without Location (legal for 300) raises AttributeError "
+              "out of Patron.serviceAll")
+    sr2 = PA.own_method("serviceResponse")
+    S2 = FuncView(ctx, sr2)
+    rc = S2.call_nodes("self.redirect")
+    rt = S2.tests(lambda t: "self.respondent.redirectant" in src(t) and "not" not in src(t))
+    ctx.check(bool(rc) and bool(rt) and S2.dominated_by_edge(rc, rt[0], "T"), "D7-nullable", sr2,
+              "Patron.serviceResponse calls redirect() only under respondent.redirectant", "")
